@@ -27,6 +27,8 @@ def main():
     patch = os.path.join(sd, "patch.diff")
     demo = os.path.join(sd, "demo.py")
     res = {"property": prop, "tier": tier, "time": time.strftime("%Y-%m-%d %H:%M:%S")}
+    ev = os.path.join(V, "evidence", prop + ".json")
+    ev_backup = open(ev).read() if os.path.exists(ev) else None
     wt = "/var/tmp/seedrun_%s_%d" % (prop, os.getpid())
     sh("git -C /repo worktree remove --force %s" % wt)
     rc, out = sh("git -C /repo worktree add --detach %s HEAD" % wt)
@@ -82,6 +84,9 @@ def main():
     # after a run against a scratch repo, restore generated tables from /repo for everyone else
     if not in_repo:
         sh("./check %s quick >/dev/null 2>&1" % prop, cwd=V, timeout=3600)
+    # the evidence file must describe a run on /repo itself, never a seeded run
+    if ev_backup is not None:
+        open(ev, "w").write(ev_backup)
     return 0
 
 
